@@ -75,10 +75,14 @@ Fixpoint recv_recs (W : nat) (full : bool) (s : rstate) (rs : list drec) : rstat
       let '(s2, o2) := recv_recs W full s1 rs' in (s2, o1 ++ o2)
   end.
 
-Definition recv_dgram (W : nat) (full : bool) (s : rstate) (d : dgram) : rstate * list out :=
+(* [neg]: the endpoint is still in the dual-stack version negotiation loop (conn.go
+   negotiateVersionServer / negotiateVersionClient -> readAndBufferNoFSM): there EVERY error of
+   readAndProcessDatagram ends the handshake, classifyReadLoopError is not consulted *)
+Definition recv_dgram (W : nat) (full neg : bool) (s : rstate) (d : dgram) : rstate * list out :=
   if r_closed s then (s, []) else
   match d with
-  | DEmpty | DLenErr => (s, [])
+  | DEmpty => (s, [])
+  | DLenErr => if neg then (s, [OErr]) else (s, [])
   | DOtherErr => (s, [OErr])
   | DRecs rs => recv_recs W full s rs
   end.
